@@ -595,4 +595,4 @@ pub fn run(rep: &Report) {
     rep.floor("function-plane evaluations", rep.evals(), 2_000_000);
 }
 
-pub const RULE: &str = "function plane: byte logic ops over all 2^16 pairs, byte shifts/rotates over all 256 values x all 256 counts x carry-in (reference = that many single-bit 8086 steps), word versions on the boundary lattice x all 256 counts (thorough: all 65536 words x 256 counts x cin x 7 ops and all word pairs x 4 logic ops); instruction/source planes: every operand form of the logic (16), NOT (6) and shift/rotate (12, immediate and CL counts) productions from hostile states with whole-memory diff. Distinct = (function, count, CF/OF out) resp. (instruction class, accept-set member).";
+pub const RULE: &str = "function plane: byte logic ops over all 2^16 pairs, byte shifts/rotates over all 256 values x all 256 counts x carry-in (reference = that many single-bit 8086 steps), word versions on the boundary lattice x all 256 counts (thorough: all 65536 words x 256 counts x cin x 7 ops and all word pairs x 4 logic ops); instruction/source planes: every operand form of the logic (16), NOT (6) and shift/rotate (12, immediate and CL counts) productions from hostile states with whole-memory diff. Distinct = (function, count, CF/OF out) resp. (instruction class, accept-set member). History planes: lock-step histories, call-order histories (same value at the other width, same count), mixed-family histories over all 13 instruction classes; operands aimed at the last bytes of memory.";
